@@ -81,6 +81,9 @@ struct Module {
     imports: Vec<Vec<String>>,
     /// leaf modules may be `name.roto` or `name/mod.roto`
     as_dir: bool,
+    /// declares `enum Color { Red, Green }`: a type is not a module, nothing but its variants can be
+    /// named through it
+    has_type: bool,
 }
 
 #[derive(Clone, Debug, PartialEq)]
@@ -89,6 +92,7 @@ enum Item {
     Const(i32),
     Module(usize),
     Local(i32),
+    Type(usize),
 }
 
 #[derive(Clone, Debug)]
@@ -231,7 +235,7 @@ fn gen_ref(c: &mut Choices, mods: &[Module], from: usize, want_fn: Option<bool>)
 
 fn decode(ctl: &[u8]) -> Tree {
     let mut c = Choices::new(ctl);
-    let mut mods = vec![Module { name: "pkg".into(), parent: None, children: vec![], fns: BTreeMap::new(), consts: BTreeMap::new(), imports: vec![], as_dir: true }];
+    let mut mods = vec![Module { name: "pkg".into(), parent: None, children: vec![], fns: BTreeMap::new(), consts: BTreeMap::new(), imports: vec![], as_dir: true, has_type: false }];
     // tree shape: depth <= 3, <= 3 children per module, distinct child names
     let mut frontier = vec![(0usize, 0u32)];
     while let Some((m, depth)) = frontier.pop() {
@@ -246,7 +250,7 @@ fn decode(ctl: &[u8]) -> Tree {
             }
             let name = names.remove(c.below(names.len()));
             let id = mods.len();
-            mods.push(Module { name: name.into(), parent: Some(m), children: vec![], fns: BTreeMap::new(), consts: BTreeMap::new(), imports: vec![], as_dir: c.chance(100) });
+            mods.push(Module { name: name.into(), parent: Some(m), children: vec![], fns: BTreeMap::new(), consts: BTreeMap::new(), imports: vec![], as_dir: c.chance(100), has_type: false });
             mods[m].children.push(id);
             frontier.push((id, depth + 1));
         }
@@ -446,6 +450,48 @@ fn decode(ctl: &[u8]) -> Tree {
             }
         }
     }
+    // types: some modules declare `enum Color`; a probe may go through it (`Color.f()`, `a.Color.K`,
+    // `import a.Color; Color.g()`), which reaches nothing, whatever the module next to the type declares
+    for m in 0..mods.len() {
+        if c.chance(70) {
+            mods[m].has_type = true;
+        }
+    }
+    let typed: Vec<usize> = (0..mods.len()).filter(|m| mods[*m].has_type).collect();
+    if !typed.is_empty() && c.chance(110) && !probes.is_empty() {
+        let k = c.below(probes.len());
+        let tm = typed[c.below(typed.len())];
+        let item: String = mods[tm].fns.keys().chain(mods[tm].consts.keys()).next().cloned().unwrap_or_else(|| "f".to_string());
+        let mut abs: Vec<String> = Vec::new();
+        let mut cur = Some(tm);
+        while let Some(x) = cur {
+            abs.push(if x == 0 { "pkg".to_string() } else { mods[x].name.clone() });
+            cur = mods[x].parent;
+        }
+        abs.reverse();
+        abs.push("Color".into());
+        let p = &mut probes[k];
+        p.sibling_imports.clear();
+        p.decoy.clear();
+        p.local = None;
+        match c.below(3) {
+            0 if p.module == tm => {
+                p.block_imports.clear();
+                p.path = vec!["Color".into(), item];
+            }
+            1 => {
+                // the type itself is imported into the function, then used as the first segment
+                p.block_imports = vec![(0, abs)];
+                p.nested_use = false;
+                p.path = vec!["Color".into(), item];
+            }
+            _ => {
+                p.block_imports.clear();
+                abs.push(item);
+                p.path = abs;
+            }
+        }
+    }
     let list_style = c.byte();
     Tree { list_style, mods, probes }
 }
@@ -460,6 +506,9 @@ impl Tree {
         }
         if let Some(v) = md.consts.get(name) {
             return Some(Item::Const(*v));
+        }
+        if name == "Color" && md.has_type {
+            return Some(Item::Type(m));
         }
         md.children.iter().find(|c| self.mods[**c].name == name).map(|c| Item::Module(*c))
     }
@@ -609,6 +658,9 @@ fn render_module(t: &Tree, m: usize) -> String {
     }
     for (k, v) in &md.consts {
         let _ = writeln!(s, "const {k}: i32 = {v};");
+    }
+    if md.has_type {
+        let _ = writeln!(s, "enum Color {{ Red, Green }}");
     }
     for (i, p) in t.probes.iter().enumerate() {
         if p.module != m {
@@ -934,7 +986,7 @@ impl WorkerState for W {
             match it {
                 Item::Fn(_) => is_fn,
                 Item::Const(_) | Item::Local(_) => !is_fn,
-                Item::Module(_) => false,
+                Item::Module(_) | Item::Type(_) => false,
             }
         };
         if self.excl_super_import {
